@@ -581,6 +581,9 @@ var (
 // valid VCs written with array lambdas, so the lambda form is used only to
 // look for a counterexample model after all back ends failed to discharge the
 // obligation, and such a model is only ever a hint for the replay.
+// knownFindingBases: obligation base names recorded as known findings of the property being checked.
+var knownFindingBases = map[string]bool{}
+
 func Solve(o *Obligation) *Result {
 	if o.Cover && len(o.Alts) > 0 {
 		first := *o
@@ -650,8 +653,16 @@ func Solve(o *Obligation) *Result {
 	ch := make(chan r, 8)
 	raceCtx, cancelRace := context.WithCancel(context.Background())
 	defer cancelRace()
+	// the race for `unsat` is generous (it only costs time when an obligation really fails): a check must not
+	// raise an alarm on the unchanged tree just because the machine is loaded. Obligations recorded as known
+	// findings are expected to fail and get a short race.
+	raceMs := optTimeoutMs * 4
+	expectedFail := knownFindingBases[obligationBase(o.Name)]
+	if expectedFail {
+		raceMs = 3000
+	}
 	run := func(sp solverSpec, script string) {
-		st, out, secs := runSolverCtx(raceCtx, sp, script, optTimeoutMs, optSeed)
+		st, out, secs := runSolverCtx(raceCtx, sp, script, raceMs, optSeed)
 		ch <- r{st, out, sp.name, secs}
 	}
 	n := 0
@@ -669,7 +680,7 @@ func Solve(o *Obligation) *Result {
 			lam := base
 			lam.name += "(lambda form)"
 			go func() {
-				st, out, secs := runSolverCtx(raceCtx, lam, ls, optTimeoutMs, optSeed)
+				st, out, secs := runSolverCtx(raceCtx, lam, ls, raceMs, optSeed)
 				if st == "sat" {
 					st = "unknown"
 				}
@@ -711,11 +722,11 @@ func Solve(o *Obligation) *Result {
 	if other != nil {
 		res.Status, res.Solver, res.Time, res.Output = other.st, other.name, other.secs, other.out
 	}
-	if !o.Cover && res.Status != "sat" {
+	if !o.Cover && res.Status != "sat" && !expectedFail {
 		// look for a counterexample model with the exact (lambda) array definitions
 		ls := o.script("z3", true)
 		for _, sp := range []solverSpec{solvers[1], solvers[0]} {
-			st, out, secs := runSolver(sp, ls, optTimeoutMs/2, optSeed)
+			st, out, secs := runSolver(sp, ls, 5000, optSeed)
 			if st == "sat" {
 				res.Status, res.Solver, res.Time, res.Output = "sat", sp.name+"(lambda form)", secs, out
 				break
